@@ -104,6 +104,7 @@ def run(ctx):
     ctx.stage("record", wall, **json.loads(out.strip().splitlines()[-1]))
     # every event is self-contained (carries its input), so a replay / self-test context is the event alone
     n = vlib.check_trace(ctx, "Trace_Utf8.tla", "Trace.cfg", tp, sig_of, group_key=lambda e: True,
+                         selftest_filter=lambda e: e.get("e") in ("v", "dec", "seqlen", "enc"),  # "r" is a result there
                          timeout=3000, xmx="6g")
     evs = vlib.read_ndjson(tp)
     shown = 0
